@@ -91,7 +91,7 @@ def gen_stress():
 
 
 SHORT = ["\uAC01", "\uAC00\uAC01", "\u00E9", "e\u0301", "\u212B", "a\u0327\u0301", "a\u0301\u0327", "\u1E9B\u0323", "\u0958", "\u1100\u1161\u11A8",
-         "\u00C5\u0323", "ab", "\u0344"]
+         "\u00C5\u0323", "ab", "\u0344", "\u1E14", "U\u0304\u0308", "\u03B1\u0313\u0300"]
 
 
 def gen_short():
@@ -121,18 +121,18 @@ def norm_string_jobs(prop, tier, only_fn=None):
     if prop not in ("C01", "C03", "C04", "C05", "C08", "C17") or (only_fn and only_fn != "wcsnorm_s"):
         return out
     inc = gen_short()
-    idxs = range(len(SHORT)) if tier != "quick" else [0, 1, 3, 5, 7, 10]
+    idxs = range(len(SHORT)) if tier != "quick" else [0, 1, 3, 5, 7, 10, 13, 14]
     for i in idxs:
         nfd = len(unicodedata.normalize("NFD", SHORT[i]))
-        dms = sorted({1, nfd - 1, nfd, nfd + 1, nfd + 2} - {0}) if tier == "quick" else range(1, nfd + 4)
-        if any(0xAC00 <= ord(c) <= 0xD7A3 or 0x1100 <= ord(c) <= 0x11FF for c in SHORT[i]):
-            # Hangul: once the whole pipeline runs (dmax > NFD length + 1) the query exhausts memory (DESIGN C17): up to the last failing size
-            dms = [d for d in dms if d <= nfd]
-        alld = sorted({1, nfd - 1, nfd, nfd + 1, nfd + 2} - {0}) if tier == "quick" else range(1, nfd + 4)
+        dms = sorted({1, nfd - 1, nfd, nfd + 1, nfd + 2} - {0}) if tier == "quick" else range(1, nfd + 7)
+        succ = len(SHORT[i]) + 4  # the library needs 5 free elements per source character: the smallest dmax that succeeds
+        if tier == "quick":
+            dms = sorted(set(dms) | {succ})
+        alld = sorted({1, nfd - 1, nfd, nfd + 1, nfd + 2} - {0}) if tier == "quick" else range(1, nfd + 7)
         for mode in (0, 1, 2):  # 2: the decomposition stage alone (wcsnorm_decompose_s), every size incl. Hangul
-            for d in (dms if mode < 2 else alld):
+            for d in ([x for x in dms if x < succ] if mode == 1 else dms if mode == 0 else alld):
                 out.append(Job("wcsnorm_s.%s.short.s%d.m%d.d%d" % (prop, i, mode, d), prop, "h_wnorm.c", NORM,
-                               defines=["-I" + inc, "-DCONCRETE_PRE"] + (["-DDECOMP_ONLY"] if mode == 2 else []) + [ "-DSIDX=%d" % i, "-DMODE=%d" % (mode % 2), "-DDOBJ=%d" % d, "-DVH_MEMSET_WORD"],
+                               defines=["-I" + inc, "-DCONCRETE_PRE", "-DBOSK=%d" % (d & 1)] + (["-DDECOMP_ONLY"] if mode == 2 else []) + [ "-DSIDX=%d" % i, "-DMODE=%d" % (mode % 2), "-DDOBJ=%d" % d, "-DVH_MEMSET_WORD"],
                                models=("libc_models.c", "wide_nd_models.c", "alloc_ok_models.c"), unwind_default=24,
                                unwind_rules=[(r"^(memcpy|memset|mem_prim)", 60)], memchecks=(prop == "C01"), fn="wcsnorm_s", object_bits=12, mem_gb=12,
                                bounds={"source": "concrete: " + " ".join("U+%04X" % ord(c) for c in SHORT[i]), "mode": ("NFD", "NFC", "decomposition stage only")[mode],
